@@ -40,34 +40,49 @@ Theorem cache_protocol_shape :
 Proof. exact (conj transpose_proto_ok (conj reshape_proto_ok csr_csc_memo_shape_proof)). Qed.
 Print Assumptions cache_protocol_shape.
 
+(* The copy constructor `COO(other[, fill_value=v])` as the source has it NOW: a shallow copy of the
+   attribute dictionary (so `_cache`, `_csr`, `_csc` are inherited), the fill value re-bound, and — the
+   fact whose absence was defect d7a2c41 — `enable_caching()` again when a cache exists, so that a copy
+   with another fill value never sees results memoised for the old one. *)
+Theorem copy_site_shape : copy_site_ok coo_copy_site = true.
+Proof. exact coo_copy_site_ok. Qed.
+Print Assumptions copy_site_shape.
+
 (* The whole family of cache-enabled objects derived from one COO: for every history of
-   transpose / reshape / tocsr / tocsc calls on the root or on any object an earlier call returned,
-   of any length, with any repetition of keys, for any deque capacity, every call returns a value
-   equal to the one the same call returns when nothing is cached.  The lookup/store keys and the
-   dependencies of the stored results are those of the generated protocols. *)
+   transpose / reshape / tocsr / tocsc calls and of copies — COO(t) (shares t's memo), COO(t, fill_value=f)
+   (memo handled as the generated copy site says; inherits _csr/_csc), t.copy() / t.copy(deep=False) (through
+   __setstate__: the copy and everything derived from it does not cache), astype(copy=False)/asformat("coo")
+   (`return self`) — on the root or on any object an earlier call
+   returned, of any length, with any repetition of keys, for any deque capacity, every call returns a
+   value equal to the one the same call returns when the root array has no cache (init true vs init false).  The lookup/store keys, the
+   dependencies of the stored results and the copy site are the generated ones.  Hypothesis on the
+   oracle functions: `_tocsr` does not look at the fill value. *)
 Theorem cache_transparent :
-  forall (V W AT AR : Type) (weqb : W -> W -> bool),
+  forall (V W AT AR F : Type) (weqb : W -> W -> bool),
     (forall a b, weqb a b = true -> a = b) ->
   forall (cap : nat)
          (pre_t : V -> AT -> pre (Cache.env W)) (g_t : V -> list W -> V)
          (pre_r : V -> AR -> pre (Cache.env W)) (g_r : V -> list W -> V)
          (guard_m : V -> option exc) (mk_csr : V -> res V) (csr2csc csc2csr : V -> V)
-         (h : list (target * op AT AR)) (v0 : V),
+         (refill : V -> F -> V),
+    (forall v f, mk_csr (refill v f) = mk_csr v) ->
+  forall (h : list (target * op AT AR F)) (v0 : V),
     out_vals V (list W) (list W)
-      (coo_run V W AT AR weqb cap pre_t g_t pre_r g_r guard_m mk_csr csr2csc csc2csr true h (init V _ _ v0))
+      (coo_run V W AT AR F weqb cap pre_t g_t pre_r g_r guard_m mk_csr csr2csc csc2csr refill h (init V _ _ true v0))
     = out_vals V (list W) (list W)
-      (coo_run V W AT AR weqb cap pre_t g_t pre_r g_r guard_m mk_csr csr2csc csc2csr false h (init V _ _ v0)).
+      (coo_run V W AT AR F weqb cap pre_t g_t pre_r g_r guard_m mk_csr csr2csc csc2csr refill h (init V _ _ false v0)).
 Proof. exact coo_cache_transparent. Qed.
 Print Assumptions cache_transparent.
 
 Theorem cache_bounded :
-  forall (V W AT AR : Type) (weqb : W -> W -> bool) (cap : nat)
+  forall (V W AT AR F : Type) (weqb : W -> W -> bool) (cap : nat)
          (pre_t : V -> AT -> pre (Cache.env W)) (g_t : V -> list W -> V)
          (pre_r : V -> AR -> pre (Cache.env W)) (g_r : V -> list W -> V)
          (guard_m : V -> option exc) (mk_csr : V -> res V) (csr2csc csc2csr : V -> V)
-         (mode : bool) (h : list (target * op AT AR)) (v0 : V) (t : nat),
-    let s := coo_run V W AT AR weqb cap pre_t g_t pre_r g_r guard_m mk_csr csr2csc csc2csr mode h (init V _ _ v0) in
-    (List.length (c_tr (caches s t)) <= cap /\ List.length (c_rs (caches s t)) <= cap)%nat.
+         (refill : V -> F -> V)
+         (mode : bool) (h : list (target * op AT AR F)) (v0 : V) (c : nat),
+    let s := coo_run V W AT AR F weqb cap pre_t g_t pre_r g_r guard_m mk_csr csr2csc csc2csr refill h (init V _ _ mode v0) in
+    (List.length (d_tr (deqs s c)) <= cap /\ List.length (d_rs (deqs s c)) <= cap)%nat.
 Proof. exact coo_cache_bounded. Qed.
 Print Assumptions cache_bounded.
 
